@@ -59,9 +59,17 @@ func (l *Log) Events() []Ev {
 }
 
 // Addr identifies an in-memory connection.
-type Addr struct{ ID int }
+type Addr struct {
+	ID  int
+	Net string // what Network() says ("mem" when empty): the server may be listening on a Unix socket as well as on TCP
+}
 
-func (a Addr) Network() string { return "mem" }
+func (a Addr) Network() string {
+	if a.Net != "" {
+		return a.Net
+	}
+	return "mem"
+}
 func (a Addr) String() string  { return fmt.Sprintf("mem:%d", a.ID) }
 
 var ErrInjected = errors.New("mem: injected transport failure")
@@ -70,6 +78,7 @@ var ErrInjected = errors.New("mem: injected transport failure")
 // with Send / CloseClient / fault setters.
 type Conn struct {
 	ID  int
+	Net string // network name reported by the addresses of this connection
 	log *Log
 
 	inq          [][]byte // pending client segments
@@ -246,8 +255,8 @@ func (c *Conn) Close() error {
 	return nil
 }
 
-func (c *Conn) LocalAddr() net.Addr                { return Addr{0} }
-func (c *Conn) RemoteAddr() net.Addr               { return Addr{c.ID} }
+func (c *Conn) LocalAddr() net.Addr                { return Addr{0, c.Net} }
+func (c *Conn) RemoteAddr() net.Addr               { return Addr{c.ID, c.Net} }
 func (c *Conn) SetDeadline(t time.Time) error      { return c.setDeadline(true, true, t) }
 func (c *Conn) SetReadDeadline(t time.Time) error  { return c.setDeadline(true, false, t) }
 func (c *Conn) SetWriteDeadline(t time.Time) error { return c.setDeadline(false, true, t) }
@@ -490,8 +499,8 @@ func (e ClientEnd) Write(p []byte) (int, error) {
 	return len(p), nil
 }
 func (e ClientEnd) Close() error                       { e.C.CloseClient(); return nil }
-func (e ClientEnd) LocalAddr() net.Addr                { return Addr{e.C.ID} }
-func (e ClientEnd) RemoteAddr() net.Addr               { return Addr{0} }
+func (e ClientEnd) LocalAddr() net.Addr                { return Addr{ID: e.C.ID} }
+func (e ClientEnd) RemoteAddr() net.Addr               { return Addr{} }
 func (e ClientEnd) SetDeadline(t time.Time) error      { return nil }
 func (e ClientEnd) SetReadDeadline(t time.Time) error  { return nil }
 func (e ClientEnd) SetWriteDeadline(t time.Time) error { return nil }
@@ -536,7 +545,7 @@ func (l *Listener) Close() error {
 	})
 	return nil
 }
-func (l *Listener) Addr() net.Addr { return Addr{0} }
+func (l *Listener) Addr() net.Addr { return Addr{} }
 
 // Dial offers a connection to the accept loop.
 func (l *Listener) Dial(c net.Conn) error {
